@@ -17,6 +17,7 @@ struct CopyOnly { CopyOnly() = default; CopyOnly(CopyOnly const&) = default; Cop
 struct S { int d; int f(int) const; void g() &; int h() &&; int n(int) noexcept; };
 struct Fn { int operator()(int) &; long operator()(int) const&; char operator()(int) &&; short operator()(int) const&&; };
 struct Pred { bool operator()(int) const; };
+struct RefFn { int& operator()(int); int const& operator()(int) const; };
 struct ConstCall { int operator()(int) const; int operator()(int) = delete; };
 struct MutCall { int operator()(int); int operator()(int) const = delete; };
 struct RvCall { int operator()(int) &&; int operator()(int) & = delete; int operator()(int) const& = delete; };
@@ -142,6 +143,8 @@ def generate(quick):
         both(t, "m::dv<decltype(etl::bind_front(m::dv<int (*)(int, int)>(), 1)) %s>()(2)" % q, "m::dv<decltype(std::bind_front(m::dv<int (*)(int, int)>(), 1)) %s>()(2)" % q,
              "bind_front(fp,1) %s (2)" % q)
     both(t, "m::dv<etl::reference_wrapper<m::Fn>>()(1)", "m::dv<std::reference_wrapper<m::Fn>>()(1)", "reference_wrapper<Fn>(1)")
+    both(t, "m::dv<etl::reference_wrapper<m::RefFn>>()(1)", "m::dv<std::reference_wrapper<m::RefFn>>()(1)", "reference_wrapper<RefFn>(1) returns the callable's reference")
+    both(t, "m::dv<etl::reference_wrapper<m::RefFn const>>()(1)", "m::dv<std::reference_wrapper<m::RefFn const>>()(1)", "reference_wrapper<RefFn const>(1) returns the callable's reference")
     both(t, "m::dv<etl::reference_wrapper<m::Fn const>>()(1)", "m::dv<std::reference_wrapper<m::Fn const>>()(1)", "reference_wrapper<Fn const>(1)")
     both(t, "m::dv<etl::reference_wrapper<int>>().get()", "m::dv<std::reference_wrapper<int>>().get()", "reference_wrapper<int>::get")
     both(t, "etl::ref(m::dv<int&>())", "std::ref(m::dv<int&>())", "ref(int&)")
